@@ -1,5 +1,6 @@
 import copy
 from dataclasses import dataclass
+from decimal import Decimal
 from typing import Any, Optional, Tuple, Union
 
 from vtlengine import AST
@@ -70,11 +71,10 @@ def _handle_literal(value: Union[str, int, float, bool]):
     elif isinstance(value, bool):
         return "true" if value else "false"
     elif isinstance(value, float):
-        decimal = str(value).split(".")[1]
-        if len(decimal) > 4:
-            return f"{value:f}".rstrip("0")
-        else:
-            return f"{value:g}"
+        # shortest decimal text that reads back as the same float, never in exponent
+        # notation (VTL has none); integral values keep their historical form without fraction
+        text = format(Decimal(repr(value)), "f")
+        return text[:-2] if text.endswith(".0") else text
     return str(value)
 
 
